@@ -30,6 +30,11 @@ type Case struct {
 	Siblings int      // deployment: sibling pods bound and deleted before (their addresses are reserved under the prefix key)
 	Target   Target
 	Cand     []string
+	// Reload: after the allocation state is built and a warm-up Filter has cached every node's subnet, the configuration is
+	// reloaded through the real updateConfigMap path with these pools (same addresses, changed node subnets); the target
+	// is created, filtered and bound afterwards.  nil = no reload.
+	Reload     []plugin.Pool
+	ReloadKind string
 }
 
 func tilde(s string) string {
@@ -138,6 +143,12 @@ func (c *Case) Script(sel BindSel, out *Outcome) plugin.Script {
 			prog = append(prog, deliverLast)
 		}
 	}
+	if c.Reload != nil {
+		// warm-up: a Filter over ALL nodes caches their subnets under the old configuration
+		prog = append(prog, fixed("pod create ns1 warm bare ~ ~ 0 - 1"), fixed("sync pods"),
+			fixed(fmt.Sprintf("filter ns1 warm %s ? ? 0", c.allNodes())),
+			fixed("reload "+plugin.PoolsLine(c.Reload)+" 0"))
+	}
 	prog = append(prog, fixed(t.createLine(t.Policy, t.Ranges)), fixed("sync pods"))
 	prog = append(prog, fixed(fmt.Sprintf("filter %s %s %s ? ? 0", t.NS, t.Name, dashIfEmpty(strings.Join(c.Cand, ",")))))
 	prog = append(prog, func(w *plugin.World) string {
@@ -148,8 +159,12 @@ func (c *Case) Script(sel BindSel, out *Outcome) plugin.Script {
 		for _, n := range out.Approved {
 			ok[n] = true
 		}
+		inForce := c.Conf.Pools
+		if c.Reload != nil {
+			inForce = c.Reload
+		}
 		for _, n := range c.Cand {
-			if nip, known := nodeIPOf(c.Conf, n); known && !ok[n] && HasSubnet(c.Conf.Pools, nip) {
+			if nip, known := nodeIPOf(c.Conf, n); known && !ok[n] && HasSubnet(inForce, nip) {
 				out.Rejected = append(out.Rejected, n)
 			}
 		}
@@ -365,6 +380,9 @@ func GenCase(rng *rand.Rand) *Case {
 	if t.Kind == "dp" && t.Policy != 0 && len(t.Ranges) == 0 && rng.Intn(100) < 50 {
 		c.Siblings = 1 + rng.Intn(2)
 	}
+	if rng.Intn(100) < 30 {
+		c.Reload, c.ReloadKind = genReload(rng, c.Conf.Pools)
+	}
 	// candidate nodes: mostly all nodes, sometimes a subset, rarely none
 	for _, n := range c.Conf.Nodes {
 		if rng.Intn(100) < 88 {
@@ -374,9 +392,100 @@ func GenCase(rng *rand.Rand) *Case {
 	return c
 }
 
+// genReload changes node subnets of the configuration (addresses stay): a subnet gets a wider or narrower prefix (in every
+// pool that lists it, so the result stays "identical or disjoint"), moves to another pool, or is removed from a pool.
+func genReload(rng *rand.Rand, pools []plugin.Pool) ([]plugin.Pool, string) {
+	out := make([]plugin.Pool, len(pools))
+	for i, p := range pools {
+		q := p
+		q.NodeSubnets = append([]plugin.Subnet(nil), p.NodeSubnets...)
+		out[i] = q
+	}
+	var all []plugin.Subnet
+	seen := map[plugin.Subnet]bool{}
+	for _, p := range pools {
+		for _, n := range p.NodeSubnets {
+			if !seen[n] {
+				seen[n] = true
+				all = append(all, n)
+			}
+		}
+	}
+	victim := all[rng.Intn(len(all))]
+	replace := func(with plugin.Subnet) {
+		for i := range out {
+			for j := range out[i].NodeSubnets {
+				if out[i].NodeSubnets[j] == victim {
+					out[i].NodeSubnets[j] = with
+				}
+			}
+		}
+	}
+	mask := func(base uint32, bits int) uint32 { return base >> uint(32-bits) << uint(32-bits) }
+	switch k := rng.Intn(5); {
+	case k == 0 && victim.Bits >= 24 && victim.Bits <= 32 && victim.Bits > 1:
+		b := victim.Bits - 1
+		w := plugin.Subnet{Base: mask(victim.Base, b), Bits: b}
+		for _, o := range all { // stay identical-or-disjoint
+			if o != victim && overlaps(o, w) {
+				return out, "same"
+			}
+		}
+		replace(w)
+		return out, "wider-prefix"
+	case k == 1 && victim.Bits < 31:
+		replace(plugin.Subnet{Base: victim.Base, Bits: victim.Bits + 1})
+		return out, "narrower-prefix-lower-half"
+	case k == 2 && victim.Bits < 31:
+		replace(plugin.Subnet{Base: victim.Base | 1<<uint(31-victim.Bits), Bits: victim.Bits + 1})
+		return out, "narrower-prefix-upper-half"
+	case k == 3 && len(out) >= 2:
+		// move: remove from one pool that lists it, add to a pool that does not
+		from, to := -1, -1
+		for i := range out {
+			has := false
+			for _, n := range out[i].NodeSubnets {
+				has = has || n == victim
+			}
+			if has && from < 0 && len(out[i].NodeSubnets) >= 2 {
+				from = i
+			} else if !has && to < 0 {
+				to = i
+			}
+		}
+		if from >= 0 && to >= 0 {
+			var keep []plugin.Subnet
+			for _, n := range out[from].NodeSubnets {
+				if n != victim {
+					keep = append(keep, n)
+				}
+			}
+			out[from].NodeSubnets = keep
+			out[to].NodeSubnets = append(out[to].NodeSubnets, victim)
+			return out, "moved-to-another-pool"
+		}
+	default:
+		for i := range out {
+			if len(out[i].NodeSubnets) >= 2 {
+				var keep []plugin.Subnet
+				for _, n := range out[i].NodeSubnets {
+					if n != victim {
+						keep = append(keep, n)
+					}
+				}
+				if len(keep) < len(out[i].NodeSubnets) {
+					out[i].NodeSubnets = keep
+					return out, "removed-from-a-pool"
+				}
+			}
+		}
+	}
+	return out, "same"
+}
+
 // Describe is a short content line of the case for the report.
 func (c *Case) Describe() string {
-	return fmt.Sprintf("%s|%s/%s kind=%s pool=%s policy=%d ranges=%s|others=%v held=%v pending=%v siblings=%d|cand=%v",
+	return fmt.Sprintf("%s|%s/%s kind=%s pool=%s policy=%d ranges=%s|others=%v held=%v pending=%v siblings=%d|cand=%v|reload=%s:%s",
 		c.Conf.InitLine(), c.Target.NS, c.Target.Name, c.Target.Kind, c.Target.Pool, c.Target.Policy,
-		plugin.RangesLine(c.Target.Ranges), c.Others, c.Held, c.Pending, c.Siblings, c.Cand)
+		plugin.RangesLine(c.Target.Ranges), c.Others, c.Held, c.Pending, c.Siblings, c.Cand, c.ReloadKind, plugin.PoolsLine(c.Reload))
 }
